@@ -133,7 +133,8 @@ def displayed(report, source, tree, atok, skips):
             continue
         if t is None or isinstance(t, TypeInParent):
             continue
-        if isinstance(a, (ast.Assign, ast.AnnAssign, ast.Call, ast.BoolOp, ast.BinOp, ast.Compare, ast.UnaryOp, ast.Constant, ast.Name)):
+        if isinstance(a, (ast.Assign, ast.AnnAssign, ast.Call, ast.BoolOp, ast.BinOp, ast.Compare, ast.UnaryOp, ast.Constant, ast.Name,
+                          ast.List, ast.Subscript, ast.ListComp)):
             d = type_to_str(t) if not (isinstance(a, (ast.Assign, ast.AnnAssign)) and isinstance(t, TypeError)) else "TypeError: " + str(t)
             if isinstance(a, ast.UnaryOp) and not isinstance(a.op, (ast.UAdd, ast.USub, ast.Not)):
                 continue
